@@ -293,6 +293,38 @@ fn frames(rep: &mut Report, seed: u64, idx: u64) {
             rep.violate("Version::encode is not \"U2F_V2\" || 0x9000", hex_short(&v), json!({"index": idx}));
         }
     }
+    // response encodings with arbitrary field values (a caller may attach an attestation certificate)
+    {
+        rep.eval();
+        let mut x = [0u8; 32];
+        let mut y = [0u8; 32];
+        x.copy_from_slice(&rng.bytes(32));
+        y.copy_from_slice(&rng.bytes(32));
+        let handle = rng.bytes(*rng.clone().pick(&[0usize, 1, 32, 64, 255]));
+        let cert = rng.bytes(*rng.clone().pick(&[0usize, 1, 70, 300, 1200]));
+        let sig = rng.bytes(rng.clone().range(8, 72));
+        let resp = u2f::RegisterResponse { public_key: u2f::PublicKey { x, y }, key_handle: handle.clone(), attestation_certificate: cert.clone(), signature: sig.clone() };
+        let case = json!({"index": idx, "encode": "register response", "key_handle_len": handle.len(), "certificate_len": cert.len(), "signature_len": sig.len()});
+        let mut want = vec![0x05u8, 0x04];
+        want.extend_from_slice(&x);
+        want.extend_from_slice(&y);
+        want.push(handle.len() as u8);
+        want.extend_from_slice(&handle);
+        want.extend_from_slice(&cert);
+        want.extend_from_slice(&sig);
+        want.extend_from_slice(&[0x90, 0x00]);
+        match catch(|| resp.encode()) {
+            Ok(got) => {
+                rep.count("arbitrary_register_responses_encoded");
+                rep.nontrivial(fnv(format!("enc-reg|{}|{}", handle.len(), cert.len()).as_bytes()));
+                if got != want {
+                    let first = got.iter().zip(want.iter()).position(|(a, b)| a != b).unwrap_or(got.len().min(want.len()));
+                    rep.violate("RegisterResponse::encode is not 0x05 || key || handle length || handle || certificate || signature || 0x9000", format!("first difference at offset {first}; lengths {} vs {}", got.len(), want.len()), case);
+                }
+            }
+            Err((sig, d)) => rep.violate(&format!("register response encode {sig}"), d, case),
+        }
+    }
 }
 
 pub fn run(args: &Args) -> Report {
